@@ -990,12 +990,101 @@ theorem size_eq_length : ∀ (t : Tree), t.size = (inorder t).length := by
 
 end Tree
 
+/-! ## Stores through the pointer returned by `GetPtr` -/
+
+/-- Reference for a store through `GetPtr`: replace the value if the key is present. -/
+def specUpdate (k : Int) (v : Nat) (l : Entries) : Entries :=
+  match specLookup k l with
+  | none => l
+  | some _ => specInsert k v l
+
+namespace Tree
+
+theorem getHeight_setValue (k : Int) (v : Nat) (t : Tree) : (setValue t k v).getHeight = t.getHeight := by
+  cases t with
+  | nil => rfl
+  | node nk nv l r h =>
+    simp only [setValue]
+    split
+    · rfl
+    · split <;> rfl
+
+theorem setValue_eq_nil (k : Int) (v : Nat) (t : Tree) : setValue t k v = nil ↔ t = nil := by
+  cases t with
+  | nil => simp [setValue]
+  | node nk nv l r h =>
+    simp only [setValue]
+    split
+    · simp
+    · split <;> simp
+
+theorem setValue_hinv (c : Nat) (k : Int) (v : Nat) : ∀ (t : Tree), HInv c t → HInv c (setValue t k v) := by
+  intro t
+  induction t with
+  | nil => intro h; exact h
+  | node nk nv l r h ihl ihr =>
+    intro hi
+    obtain ⟨hl, hr, hh, hb1, hb2⟩ := hi
+    simp only [setValue]
+    split
+    · refine ⟨hl, ihr hr, ?_, ?_, ?_⟩
+      · rw [getHeight_setValue, setValue_eq_nil]; exact hh
+      · rw [getHeight_setValue]; exact hb1
+      · rw [getHeight_setValue]; exact hb2
+    · split
+      · refine ⟨ihl hl, hr, ?_, ?_, ?_⟩
+        · rw [getHeight_setValue, setValue_eq_nil]; exact hh
+        · rw [getHeight_setValue]; exact hb1
+        · rw [getHeight_setValue]; exact hb2
+      · exact ⟨hl, hr, hh, hb1, hb2⟩
+
+theorem setValue_inorder (k : Int) (v : Nat) : ∀ (t : Tree), SortedKeys (inorder t) →
+    inorder (setValue t k v) = specUpdate k v (inorder t) := by
+  intro t
+  induction t with
+  | nil => intro _; rfl
+  | node nk nv l r h ihl ihr =>
+    intro hs
+    obtain ⟨hsl, hsr, hl, hr⟩ := sortedKeys_node hs
+    simp only [setValue]
+    unfold specUpdate
+    simp only [inorder]
+    split
+    · rename_i hlt
+      have hx : ∀ x ∈ inorder l, x.1 < k := fun x hx => by have := hl x hx; omega
+      rw [specLookup_append_gt k _ nk nv _ hx hlt, specInsert_append_gt k v _ nk nv _ hx hlt]
+      simp only [inorder]
+      rw [ihr hsr]; unfold specUpdate
+      cases specLookup k (inorder r) <;> rfl
+    · split
+      · rename_i hlt
+        rw [specLookup_append_lt k _ nk nv _ hlt, specInsert_append_lt k v _ nk nv _ hlt]
+        simp only [inorder]
+        rw [ihl hsl]; unfold specUpdate
+        cases specLookup k (inorder l) <;> rfl
+      · rename_i h1 h2
+        have : nk = k := by omega
+        subst this
+        rw [specLookup_append_eq nk _ nv _ hl, specInsert_append_eq nk v _ nv _ hl]
+        simp only [inorder]
+
+end Tree
+
+theorem sorted_specUpdate (k : Int) (v : Nat) (l : Entries) (hs : SortedKeys l) : SortedKeys (specUpdate k v l) := by
+  unfold specUpdate
+  cases specLookup k l with
+  | none => exact hs
+  | some _ => exact sorted_specInsert k v l hs
+
+
 /-! ## Whole histories of the exported mutators -/
 
 /-- A state-changing `TreeMap` call. -/
 inductive MapOp where
   | set (k : Int) (v : Nat)
   | delete (k : Int)
+  /-- `if p := GetPtr(k); p != nil { *p = v }` -/
+  | update (k : Int) (v : Nat)
 deriving Repr, DecidableEq
 
 namespace TreeMap
@@ -1009,6 +1098,7 @@ def Inv (c : Nat) (t : TreeMap) : Prop := SortedKeys t.abs ∧ Tree.HInv c t.roo
 def apply (c : Nat) (t : TreeMap) : MapOp → Option TreeMap
   | .set k v => t.set c k v
   | .delete k => t.delete k
+  | .update k v => some (t.update k v).1
 
 /-- Run a history; `none` as soon as a call panics. -/
 def run (c : Nat) : TreeMap → List MapOp → Option TreeMap
@@ -1023,6 +1113,7 @@ end TreeMap
 def specApply (l : Entries) : MapOp → Entries
   | .set k v => specInsert k v l
   | .delete k => specErase k l
+  | .update k v => specUpdate k v l
 
 def specRun (l : Entries) (ops : List MapOp) : Entries := ops.foldl specApply l
 
@@ -1049,6 +1140,29 @@ theorem delete_refines (c : Nat) (hc : c ≤ 1) (t : TreeMap) (k : Int) (hi : In
   show SortedKeys r'.inorder
   rw [ha]; exact sorted_specErase k _ hs
 
+
+/-- A store through `GetPtr` refines `specUpdate`, reports whether the key was present, keeps the invariant. -/
+theorem update_refines (c : Nat) (t : TreeMap) (k : Int) (v : Nat) (hi : Inv c t) :
+    (t.update k v).1.abs = specUpdate k v t.abs ∧ (t.update k v).2 = (specLookup k t.abs).isSome ∧
+    Inv c (t.update k v).1 := by
+  obtain ⟨hs, hh⟩ := hi
+  unfold update
+  have hf := Tree.find_eq k t.root hs
+  cases hfk : t.root.find k with
+  | none =>
+    rw [hfk] at hf
+    have : specUpdate k v t.abs = t.abs := by unfold specUpdate abs; rw [← hf]
+    simp only
+    exact ⟨this.symm, by unfold abs; rw [← hf]; rfl, hs, hh⟩
+  | some e =>
+    rw [hfk] at hf
+    simp only
+    have ha : (Tree.setValue t.root k v).inorder = specUpdate k v t.root.inorder := Tree.setValue_inorder k v t.root hs
+    refine ⟨ha, by unfold abs; rw [← hf]; rfl, ?_, Tree.setValue_hinv c k v t.root hh⟩
+    show SortedKeys (Tree.setValue t.root k v).inorder
+    rw [ha]; exact sorted_specUpdate k v _ hs
+
+
 theorem run_refines (c : Nat) (hc : c ≤ 1) : ∀ (ops : List MapOp) (t : TreeMap), Inv c t →
     ∃ t', run c t ops = some t' ∧ t'.abs = specRun t.abs ops ∧ Inv c t' := by
   intro ops
@@ -1060,6 +1174,9 @@ theorem run_refines (c : Nat) (hc : c ≤ 1) : ∀ (ops : List MapOp) (t : TreeM
       cases op with
       | set k v => exact set_refines c hc t k v hi
       | delete k => exact delete_refines c hc t k hi
+      | update k v =>
+        obtain ⟨h1, _, h3⟩ := update_refines c t k v hi
+        exact ⟨_, rfl, h1, h3⟩
     obtain ⟨t1, e1, a1, i1⟩ := h1
     obtain ⟨t', e', a', i'⟩ := ih t1 i1
     refine ⟨t', ?_, ?_, i'⟩
